@@ -40,7 +40,7 @@ RULE = ("case = (state kind, n, h[, a], parameters = scale*N(0,1) with all biase
         "every public gradient method compared with the model "
         "and with central finite differences of an independently written NLL (Born rule through the dense Kronecker product); the model's rotated "
         "amplitude / probability compared with the same dense formula; permutation/split invariance; 1-D call form with the basis as str, "
-        "list and char-array row; bases of a batch as list of lists / list[str] / 1-D str ndarray (string rows: refusal informational, proposed F23); "
+        "list and char-array row; bases of a batch as list[str] / 1-D str ndarray (documented forms, F22 applied; list of lists / tuple of strings: undocumented, recorded only); "
         "public rotated_gradient / am_grads / ph_grads; positive state: rotated bases handed to its methods are ignored (informational, scope note); "
         "bases=None on the complex / mixed state; pi_grad on both branches of `expand`; "
         "argument forms (round 5): every integer / boolean option of a public call is drawn per case from a seeded stream (`aseed`; Python int, numpy "
@@ -507,6 +507,10 @@ def container_forms(ctx, st, kind, case, n, data, S, B, space_t, g, pp, ex, scal
                 ctx.count(f"bases of a batch as {fname}: refused with {type(e).__name__} (informational: proposed finding F23)")
                 continue
             okf, det = False, {"exception": type(e).__name__, "message": str(e)[:200]}
+        if not stringrows:
+            # audit 3 (B-10): a list of lists of letters is not among the documented `numpy.ndarray or list[str] or None`: recorded only
+            ctx.info(f"gradient(samples, bases as {fname}) == gradient(samples, 2-D char array) [undocumented form]", bool(okf), True)
+            continue
         ctx.oracle(f"gradient(samples, bases as {fname}) == gradient(samples, 2-D char array)", bool(okf), case, detail=det,
                    sig=f"{kind}/bases-container", theorem=TH_SUM[kind])
     # ---- C03-5: public rotated_gradient(basis, samples of that basis) == gradient(those samples, that basis per row); complex state: am_grads / ph_grads
@@ -785,8 +789,9 @@ def _bases_json(b):
 
 def args_model_points(ctx, st, kind, case, n, h, a, am, ph, data, S, D, scale):
     """gradient(samples, bases) with `bases` in every form the code distinguishes, real code against Grads.gradientCplxArgs /
-    gradientDMArgs on the same batch.  Documented forms of a valid assignment: property level (values);  malformed / undocumented
-    forms: auxiliary level (accepted-or-refused, values when both accept) - the property does not say what must be refused."""
+    gradientDMArgs on the same batch.  Documented forms of a valid assignment (numpy.ndarray / list[str] / None): property level (values);
+    malformed / undocumented forms (incl. tuple[str], list of lists, one-row 2-D array for a 1-D sample): ctx.info, recorded only - the
+    property does not say what must be refused."""
     dict_enc = {L: [[[f2b(D[L][r][c].real), f2b(D[L][r][c].imag)] for c in range(2)] for r in range(2)] for L in "XYZ"}
     strings = [b for _, b in data]
     N = len(data)
@@ -815,17 +820,20 @@ def args_model_points(ctx, st, kind, case, n, h, a, am, ph, data, S, D, scale):
                 ctx.point(f"gradient(samples, bases as {name})[{i}]", level, got[i], unbits(m["gradient"][i]), {**case, "form": name}, scale=scale,
                           rtol=5e-8, atol=1e-10, sig=f"{kind}/bases-form-value/{name}", theorem=TH_FORMS)
 
-    # ---- documented forms of the batch (property level)
+    # ---- documented forms of the batch (property level).  audit 3 (B-10): the docstring documents `numpy.ndarray or list[str] or None`
+    # (neural_state.py gradient / positive_phase_gradients); a tuple of strings and a list of lists of letters only work through the
+    # present np.array(list(bases)) conversion - undocumented forms, recorded only (an `isinstance(bases, list)` test may refuse a tuple)
     for name, bobj in (("2-D char array", np.array([list(b) for b in strings])), ("list of lists", [list(b) for b in strings]),
                        ("list[str]", list(strings)), ("tuple[str]", tuple(strings)), ("1-D str ndarray", np.array(strings)), ("None", None)):
-        both(name, "property", S, False, rows_all, bobj)
+        both(name, "info" if name in ("list of lists", "tuple[str]") else "property", S, False, rows_all, bobj)
     # ---- the 1-D single-sample forms (quantifier: "1-D single-sample call form"): last rotated row, else row 0
     rot_rows = [k for k, b_ in enumerate(strings) if any(ch != "Z" for ch in b_)]
     k0 = rot_rows[-1] if rot_rows else 0
     v1, b0 = S[k0], strings[k0]
     for name, bobj in (("1-D/str", b0), ("1-D/list of letters", list(b0)), ("1-D/char array", np.array(list(b0))),
                        ("1-D/one-row 2-D array", np.array([list(b0)])), ("1-D/None", None)):
-        both(name, "property", v1, True, [rows_all[k0]], bobj)
+        # audit 3 (B-10): a one-row 2-D array for a 1-D sample only works through np.array(list(bases)).reshape(1, -1): undocumented -> recorded only
+        both(name, "info" if name == "1-D/one-row 2-D array" else "property", v1, True, [rows_all[k0]], bobj)
     both("batch of one/[str]", "property", S[k0:k0 + 1], False, [rows_all[k0]], [b0])
     # ---- malformed / undocumented (auxiliary level): what is refused, and what is silently accepted
     mal = [("str for a batch", S, False, rows_all, strings[0]), ("empty list", S, False, rows_all, []),
@@ -876,7 +884,10 @@ def layout_model_points(ctx, st, case, n, h, a, am, ph, space, scale):
         for name, f, (mre, mim), expand, th in calls:
             # gamma_grad / pi_grad are internal helpers of the gradient (the property names the TRAINING gradients, compared above):
             # their tensor layout is the tie between model and code - auxiliary, never a replayable property violation
-            level = "aux"
+            # audit 3 (B-16): only expand=True on two 2-D operands is the path training takes (any B, B': the outer product of the batches);
+            # the expand=False branch (mismatched batch sizes refused, the odd acceptance by pi_grad(phase=True, expand=False)) and the 1-D
+            # squeeze shapes are not used by any training gradient and not named by the property -> recorded only
+            level = "aux" if expand and not one_v and not one_p else "info"
             try:
                 t = _np(f())
                 iok = True
@@ -884,6 +895,16 @@ def layout_model_points(ctx, st, case, n, h, a, am, ph, space, scale):
                 t, iok = None, False
             ctx.count(f"layout/{name}/{tag}: " + ("accepted" if iok else "refused"))
             sig = f"dm/layout/{name}"
+            if level == "info":
+                mok = bool(mre["ok"])
+                same = iok == mok
+                if same and iok:
+                    shp, dat = _ft(mre)
+                    mim_d = _ft(mim)[1] if mim is not None else np.zeros(t[1].size)
+                    same = list(t.shape) == [2] + shp and bool(np.allclose(t[0].ravel(), dat, rtol=1e-6, atol=1e-9 * scale)) \
+                        and bool(np.allclose(t[1].ravel(), mim_d, rtol=1e-6, atol=1e-9 * scale))
+                ctx.info(f"layout/{name} [expand=False branch / 1-D operands]: acceptance, shape and entries", bool(same), True)
+                continue
             if not ctx.point(f"{name} [{tag}]: accepted by the code == accepted by the model", level, [int(iok)], [int(bool(mre['ok']))], lcase,
                              exact=True, sig=sig, theorem=th) or not iok:
                 continue
